@@ -248,25 +248,29 @@ def must_raise(chk, rid, fq, typ, core, label):
   fi = repo.func(fq)
   facts = {}
   matched = 0
-  conds = []
+  tests = []
   for x in walk_local(fi.node):
     if isinstance(x, (ast.If, ast.While)):
-      conds.append(x.test)
-  for need, val in core:
+      tests.append(x.test)
+  POL = {ast.In: ('in', True), ast.NotIn: ('in', False), ast.Eq: ('eq', True),
+         ast.NotEq: ('eq', False), ast.Is: ('eq', True), ast.IsNot: ('eq', False)}
+  for need, kind, val in core:
     hit = False
-    for t in conds:
-      for e in _conjuncts(t):
-        inner = e.operand if isinstance(e, ast.UnaryOp) and isinstance(e.op, ast.Not) else e
-        if set(need) <= idents(inner):
-          # store the truth of the inner expression
-          tv = (not val) if inner is not e else val
-          facts[norm(inner)] = tv
-          if isinstance(inner, ast.Name):
+    for t in tests:
+      for e in ast.walk(t):
+        if kind == 'truthy':
+          if isinstance(e, ast.Name) and e.id in need:
+            facts[norm(e)] = val
             # a flag variable: the same truth for the expression it was computed from
             for a in walk_local(fi.node):
               if (isinstance(a, ast.Assign) and len(a.targets) == 1
-                  and isinstance(a.targets[0], ast.Name) and a.targets[0].id == inner.id):
-                facts[norm(a.value)] = tv
+                  and isinstance(a.targets[0], ast.Name) and a.targets[0].id == e.id):
+                facts[norm(a.value)] = val
+            hit = True
+        elif isinstance(e, ast.Compare) and len(e.ops) == 1 and type(e.ops[0]) in POL \
+            and POL[type(e.ops[0])][0] == kind and set(need) <= idents(e):
+          # the relation itself has truth `val`, however the test spells it
+          facts[norm(e)] = (val == POL[type(e.ops[0])][1])
           hit = True
     if hit:
       matched += 1
@@ -310,16 +314,17 @@ def _conjuncts(t):
 
 
 MUST_RAISE = [
+    # (function, diagnostic, core condition as relations: (identifiers, kind, truth), label)
     ('universe.Annotations.CheckAnnotatedObjects', 'RuleCompileException',
-     [(['annotation_name'], True), (['annotated_predicate', 'all_predicates'], True)],
+     [(['annotation_name'], 'in', True), (['annotated_predicate', 'all_predicates'], 'in', False)],
      'an annotated predicate does not exist'),
-    ('functors.Functors.CallFunctor', 'FunctorError', [(['bad_args'], True)],
+    ('functors.Functors.CallFunctor', 'FunctorError', [(['bad_args'], 'truthy', True)],
      'a functor is applied to arguments it does not have'),
     ('parse.MultiBodyAggregation.SplitAggregation', 'ParsingException',
-     [(['distinct_denoted', 'rule'], True)], 'one body of an aggregating predicate lacks distinct'),
-    ('parse.RemoveComments', 'ParsingException', [(['status', 'Unmatched'], True)],
+     [(['distinct_denoted', 'rule'], 'in', False)], 'one body of an aggregating predicate lacks distinct'),
+    ('parse.RemoveComments', 'ParsingException', [(['status', 'Unmatched'], 'eq', True)],
      'a closing bracket matches nothing'),
-    ('parse.SplitRaw', 'ParsingException', [(['status', 'OK'], True)],
+    ('parse.SplitRaw', 'ParsingException', [(['status', 'OK'], 'eq', False)],
      'the scanner reports an unmatched bracket'),
 ]
 
@@ -428,7 +433,7 @@ def run(chk):
       continue
     seen_fq.add(fq)
     fi = repo.func(fq)
-    chk.ob('C19-R2', fq in reach, None,
+    chk.ob('C19-R2', fi.fq in reach, None,
            '%s reachable from the compilation entry points' % fq,
            'the detection site exists but nothing on the way from ParseFile / '
            'LogicaProgram calls it any more', fi=fi)
